@@ -14,7 +14,7 @@ func init() {
 		ID:    "C03",
 		Level: "model_checking",
 		Rule: "(a) all ordered pairs and same-type triples of a value pool (numbers at several precisions incl. decimal-text-equal and hash-text-colliding ones, normalising strings, nulls, nested structures, capsules, refined unknowns) checked against a documented-equality reference; " +
-			"(b) breadth-first search over all histories of Add/Remove/Copy/swap/Union/Intersection/Subtract/SymmetricDifference on two real ValueSets over a 6-element colliding alphabet, a model set advanced in lock-step, invariant checked in every state; states keyed on the full bucket dump + model; " +
+			"(b) breadth-first search over all histories (depth 5, thorough 7) of Add/Remove/Copy/swap/Union/Intersection/Subtract/SymmetricDifference on two real ValueSets over a 6-element colliding alphabet, a model set advanced in lock-step, invariant checked in every state; states keyed on the full bucket dump + model; " +
 			"distinct = distinct pair GoStrings / distinct states; non-trivial = pairs of same type or both null, and every transition",
 		Assumptions: []string{
 			"documented number equality: equal integers, or equal shortest decimal text (reference implementation in the checker)",
@@ -225,9 +225,9 @@ func runC03(c *Ctx) {
 		}
 	})
 	// (b) set histories
-	depth := 4
+	depth := 5
 	if c.Thorough {
-		depth = 5
+		depth = 7
 	}
 	c.Note("set_history_depth", fmt.Sprint(depth))
 	for _, alpha := range c03SetAlphabets() {
